@@ -1102,7 +1102,7 @@ Proof.
     pose proof (write_field_msg env t w Hwt) as Hmsg.
     rewrite Hprim in Hw. set (required := req || is_primary_ty t) in *.
     destruct (opt && required) eqn:Eor; [destruct required; discriminate|].
-    assert (Ho : o = FO name (idx + 1)%N (fw_kind w) false opt (opt || is_msg_kind (fw_kind w))
+    assert (Ho : o = FO name (Strcase.to_snake name) (idx + 1)%N (fw_kind w) false opt (opt || is_msg_kind (fw_kind w))
                        (if required then set_required (fw_val w) else fw_val w)
                        (fw_ext w) (fw_list w) (fw_key w) desc).
     { destruct required; inversion Hw; reflexivity. }
